@@ -71,7 +71,35 @@ def reader_tick_limit(ctx, rule='LIMIT/reader-max-tick'):
              'at 480 ticks per quarter and 120 qpm %g ticks are %.1f hours' % (v_, PINNED_MAX_TICK, v_, v_ / 960.0 / 3600.0), construct=cons, definite=True)
 
 
+def cutoff_counts_from_the_last_note(ctx, rule='DROP/cut-off-from-the-last-note'):
+  """Location-independent: `drop_events_n_seconds_after_last_note` counts from the end of the last *note*.  The writer accepts any
+  NoteSequence - `total_time` is a field the caller may have left at 0 or stale - so a cut-off computed from `total_time` drops
+  tempo, key, meter, bend and control events that lie well before the last note.  Every assignment of the writer whose value depends on
+  that parameter is read through the locals: it must not read a `total_time`."""
+  fi = ctx.func('midi_io:note_sequence_to_pretty_midi')
+  fn = fi.node
+  par = 'drop_events_n_seconds_after_last_note'
+  cons = 'the cut-off for late events is counted from note ends, not from total_time'
+  if par not in [a.arg for a in fn.args.args + fn.args.kwonlyargs]:
+    why = 'cannot classify: no parameter %s' % par
+    ctx.ob(rule, fi, fn, False, why, construct=cons, unknown=why)
+    return
+  n = 0
+  for st in ast.walk(fn):
+    if isinstance(st, ast.Assign) and len(st.targets) == 1 and isinstance(st.targets[0], ast.Name) and any(isinstance(x, ast.Name) and x.id == par for x in ast.walk(st.value)):
+      n += 1
+      vx = U.expand_locals(fn, st.value, at=st)
+      bad = [a for a in ast.walk(vx) if isinstance(a, ast.Attribute) and a.attr == 'total_time']
+      ctx.ob(rule, fi, st, not bad, '`%s` does not read total_time' % norm_text(st)[:60] if not bad else
+             '`%s` counts the %s seconds from `%s`: for a sequence whose total_time is unset or stale (any hand-built one) the cut-off lies before the last note, and tempo, time-signature, key, '
+             'bend and control events up to the end of the music are dropped from the file' % (norm_text(st)[:70], par, norm_text(bad[0])), construct=cons, definite=True)
+  if n == 0:
+    why = 'cannot classify: no assignment of the writer reads %s' % par
+    ctx.ob(rule, fi, fn, False, why, construct=cons, unknown=why)
+
+
 def run(ctx):
+  cutoff_counts_from_the_last_note(ctx)
   reader_tick_limit(ctx)
   from sa import pitfalls as _pf
   _pf.apply(ctx, 'PITFALL', [fi_ for q_, fi_ in sorted(ctx.P.module('midi_io').functions.items())], ['stale-loop-variable'], {
@@ -695,4 +723,4 @@ EXPLANATION += (' Round 6: ' + "PITFALL/stale-sibling (two names unpacked from e
 EXPLANATION += (' Round 7: ' + "PITFALL/wrapper-default (a forwarded parameter keeps the callee's default); FIELDS/reader-keeps-every-event (no signature event is skipped on numerator / denominator).")
 EXPLANATION += (' Rounds 9-10: ' + 'FRESH/instrument-per-group located when the reuse branch changes nothing its condition reads; LIMIT/reader-max-tick (the module-level MAX_TICK override folds to at least the pinned 1e10).')
 EXPLANATION += (' Round 12: ' + 'PITFALL/stale-loop-variable over midi_io.')
-EXPLANATION += (' Round 14: ' + 'LAYOUT/label-whatever-the-others.')
+EXPLANATION += (' Round 14: ' + 'LAYOUT/label-whatever-the-others; DROP/cut-off-from-the-last-note.')
